@@ -784,7 +784,8 @@ var PartPool = []string{"a", "b", "foo", "0", "1", "10", "007", "x y", "", "A", 
 	"9223372036854775807", "9223372036854775808", "18446744073709551615", "18446744073709551616", "99999999999999999999", "447911123456789012345", "00000000000000000000001", "4294967296"}
 
 var LitPool = []string{"", "1", "0", "-1", "1.5", "007", "abc", "true", "false", "foo.bar", "a.0", "x y", "/usr/bin", "/", "/a~1b", "//", "\"", "\\", "`", "\r", "a\r\nb",
-	"é", "日本語", "\x00", "\xff\xfe", "^a.*b$", "[0-9]+", "(", "not", "in", "-0", "1e3", "0x10", "1_000", "+1", "NaN", "a/b", "T", "emoji😀", "\t", " lead", "trail ", "%", "{}", "a==b", " "}
+	"é", "日本語", "\x00", "\xff\xfe", "^a.*b$", "[0-9]+", "(", "not", "in", "-0", "1e3", "0x10", "1_000", "+1", "NaN", "a/b", "T", "emoji😀", "\t", " lead", "trail ", "%", "{}", "v1.18446744073709551615", "a.99999999999999999999.b", "18446744073709551616", "a  b", "a\tb", "   ",
+	strings.Repeat("9", 400), "1" + strings.Repeat("0", 320), "-" + strings.Repeat("7", 310) + ".5", "0." + strings.Repeat("0", 400) + "1", strings.Repeat("1", 40), "a==b", " "}
 
 func pick(r *rand.Rand, l []string) string { return l[r.Intn(len(l))] }
 
